@@ -381,6 +381,16 @@ func genC16(g *gen) {
 		out := g.op("js.xverify %s %s %s", hx(msg), hx([]byte(hex.EncodeToString(bad))), hx([]byte("0x"+hex.EncodeToString(xpk[:]))))
 		g.check(out == "ok "+bstr(coreBad), "xmss-verify-wrapper", "XMSSVerify on a corrupted signature differs from core", g.ops[len(g.ops)-1])
 	}
+	// valid signatures at heights up to 30 (crafted through the model): wrapper and core must agree there too
+	g.note("XMSSVerify on valid signatures of tall trees")
+	for k, t := range g.craftedTriples([]int{4, 10, 14, 16, 18, 20, 24, 30}) {
+		hs := g.hexVariants(t.sig)[k%4]
+		hp := g.hexVariants(t.pk[:])[(k/4)%4]
+		line := fmt.Sprintf("js.xverify %s %s %s", hx(t.msg), hx([]byte(hs)), hx([]byte(hp)))
+		coreT := xmss.Verify(t.msg, t.sig, t.pk)
+		out := execOp(g.st, line)
+		g.check(out == "ok "+bstr(coreT), "xmss-verify-wrapper", fmt.Sprintf("height %d: XMSSVerify = %s but core Verify = %v on a valid signature", t.h, out, coreT), line)
+	}
 	for i := 0; i < 40; i++ {
 		pk := g.bytes(67)
 		pk[1] &= 0x0f
